@@ -3,6 +3,7 @@ package h
 import (
 	"sync"
 	"sync/atomic"
+	"time"
 
 	"github.com/thanos-community/promql-engine/verifhook"
 )
@@ -23,17 +24,23 @@ func WithPerturbation(seed uint64, f func()) {
 		HookVisits.Add(1)
 		perturbDecide(seed, k, uint64(len(site))*131+uint64(id))
 	}
-	defer func() { verifhook.Callback = nil }()
+	defer func() {
+		// goroutines of the query may still pass hook points for a moment after Exec returned
+		EngineGoroutines(2 * time.Second)
+		verifhook.Callback = nil
+	}()
 	f()
 }
 
-// WithPurePerturbation is the race-pure variant: the callback shares no state between goroutines.
-func WithPurePerturbation(seed uint64, f func()) {
-	perturbMu.Lock()
-	defer perturbMu.Unlock()
-	verifhook.Callback = func(site string, id int) {
-		perturbDecide(seed, uint64(nanotime()), uint64(len(site))*131+uint64(id))
-	}
-	defer func() { verifhook.Callback = nil }()
-	f()
+var pureOnce sync.Once
+
+// InstallPurePerturbation installs, once per process and for good, the race-pure hook callback:
+// it shares no state between goroutines (decision = hash of site, id and the clock's low bits) and
+// is never uninstalled, so that the monitor itself adds no write for the detector to see.
+func InstallPurePerturbation() {
+	pureOnce.Do(func() {
+		verifhook.Callback = func(site string, id int) {
+			perturbDecide(0x9e3779b9, uint64(nanotime()), uint64(len(site))*131+uint64(id))
+		}
+	})
 }
